@@ -33,6 +33,7 @@ from .e2_eval import AutoEvaluator, Unknown, is_unknown, need, _vec_binop
 from .sem import unfn
 
 TRUE, FALSE, NONE = F.sym("True"), F.sym("False"), F.sym("None")
+ALLOCATORS = {"np.zeros", "np.empty", "np.ones", "np.zeros_like", "np.empty_like", "np.ones_like", "np.full", "np.full_like", "np.tile"}
 METHODS = {"max", "min", "sum", "any", "all", "var", "std", "mean", "argmax", "argmin", "ptp"}
 
 
@@ -454,6 +455,11 @@ class XEval(AutoEvaluator):
             a = fn.args
             for x in a.posonlyargs + a.args + a.kwonlyargs + ([a.vararg] if a.vararg else []) + ([a.kwarg] if a.kwarg else []):
                 self.env.setdefault(x.arg, F.sym(x.arg))
+            # a local created by an allocation is an array even when only helpers store into it (through a view passed as argument)
+            for n in ast.walk(fn):
+                if isinstance(n, ast.Assign) and len(n.targets) == 1 and isinstance(n.targets[0], ast.Name) and isinstance(n.value, ast.Call) \
+                        and dotted(n.value.func) in ALLOCATORS:
+                    self.buffers.add(n.targets[0].id)
 
     # ------------------------------------------------------------------ helpers
     def _tmpname(self, v):
